@@ -126,4 +126,8 @@ def run(facts, rep, tier, ctx):
         if w12.present():
             from .c10 import _Prefixed as _Pf12
             _c05k.is_kind_rules(facts, _c05k._P5(rep if not w12.asyncw else _Pf12(rep, "A"), "R11.12k"), w12, D)
+    # (the segment loop of create_dir_all visits every separator and the end of the path: its slicing sites keep the reviewed
+    # cursor shape — a loop bound that stops one byte early never creates a final one-byte component yet answers Ok; C13 records)
+    from . import c13 as _c13p
+    _c13p.sites_for(facts, rep, ctx["V"], "R11.5p", lambda r: r.name == "create_dir_all")
     rep.assume("copy_dir/move_dir into the source's own subtree is excluded by the property")
